@@ -143,7 +143,7 @@ PROPS = {
         "cold-process thread stress with barrier-released first calls compared with reference results; ThreadSanitizer build and Miri data-race detector (many seeds) on the same worker; interleaved-instances shadow check",
         "Exploration of schedules: each trial is a fresh process in which T threads make their first calls concurrently (lockstep or random order); the evidence counts entry points that were really entered concurrently.",
         "Race detection is limited to what TSan / Miri intercept and to schedules that occurred; weak-memory outcomes beyond x86-TSO / Miri's model are out of reach.",
-        "case = one cold process (threads, order mode, seed; one in three a bulk trial with 4-64 KiB per cipher call) or one interleaving of up to 12 instances; evaluations = results compared; distinct_nontrivial = distinct observed before/after interleavings of concurrent first calls at a one-time-initialised entry point",
+        "case = one cold process (threads, order mode, seed; one in three a bulk trial with 4-64 KiB per cipher call), one hand-off trial (instances in mid-stream / mid-message passed between fresh threads for 1-3 rounds) or one interleaving of up to 12 instances; evaluations = results compared; distinct_nontrivial = distinct observed before/after interleavings of concurrent first calls at a one-time-initialised entry point",
         (20000, 1000000), [REF, "schedules are sampled by the OS / Miri scheduler, not enumerated"],
         require_classes=["first-call-overlap/Groestl256/", "interleave/instances="]),
     "C19": P(
